@@ -153,7 +153,7 @@ class OneCoreDisk(DiskBase):
     see docs/blocking for point numbers and faces/grid indexing."""
 
     chops: ClassVar = [
-        [0],  # axis 0
+        [1],  # axis 0: radial direction of the shell (the core is covered by the tangential chops)
         [1, 2],  # axis 1
     ]
 
@@ -294,7 +294,7 @@ class WrappedDisk(DiskBase):
     making the sketch a square"""
 
     chops: ClassVar = [
-        [6],
+        [1, 6],  # radial direction of the round shell and of the outer, square ring
         [1, 2],
     ]
 
